@@ -206,10 +206,22 @@ class Inliner:
                             setattr(node, field, new_node)
                 return node
 
+            nest = []
+
             def visit_Call(self_, node):
                 self_.generic_visit(node)
-                r = me._expr_helper(node, stack, depth)
-                return r if r is not None else node
+                r = me._expr_helper(node, list(stack) + list(self_.nest), depth)
+                if r is None:
+                    return node
+                # helper calls inside the expression that was just substituted (label helpers calling label helpers)
+                q = getattr(r, "_inlined_from", None)
+                if q is not None and len(self_.nest) < 4:
+                    self_.nest.append(q)
+                    try:
+                        r = self_.visit(r)
+                    finally:
+                        self_.nest.pop()
+                return r
 
         T().visit(s)
         for n in ast.walk(s):
@@ -380,6 +392,21 @@ class Inliner:
         """`recv.m(a, helper(..))` / `x = f(helper(..))`: the helper call is an argument of the statement's top-level call and everything
         evaluated before it is a plain name / attribute / constant -> `__tmp = helper(..)` in front (then inlined as an assignment)"""
         top = None
+        if isinstance(s, ast.AugAssign) and isinstance(s.target, ast.Name) and isinstance(s.value, ast.Call) and depth < MAX_DEPTH:
+            # `x += helper(..)` with a local name x (which the helper cannot touch):  __arg = helper(..); x += __arg
+            av = s.value
+            q = self._eligible_stmt_helper(av)
+            if q is None or q in stack or _has(self.pristine[q].body, (ast.Yield, ast.YieldFrom)):
+                return None
+            self.counter += 1
+            tmp = f"__arg{self.counter}"
+            assign = self._at(ast.Assign(targets=[ast.Name(id=tmp, ctx=ast.Store())], value=av), av)
+            s.value = self._at(ast.Name(id=tmp, ctx=ast.Load()), av)
+            rep = self.try_inline(assign, host, stack, depth)
+            if rep is None:
+                s.value = av
+                return None
+            return rep + [s]
         if isinstance(s, ast.Expr) and isinstance(s.value, ast.Call):
             top = s.value
         elif isinstance(s, (ast.Assign, ast.Return)) and isinstance(s.value, ast.Call):
@@ -531,6 +558,20 @@ class Inliner:
                 # `return N` (the aliased name) or, for a single name, `return <constant>` (becomes `N = <constant>`)
                 return ret_names(r) == tnames or (len(tnames) == 1 and isinstance(r.value, ast.Constant))
 
+            # `T1, T2 = helper(..)` where every return is `return a, b` (locals of the helper): a IS T1 and b IS T2 - rename them, so that the
+            # host's names denote the objects from where they are created (no copy step between the creation and the use the rules look at)
+            if tnames and len(set(tnames)) == len(tnames) and rets_ and not all(ret_ok(r) for r in rets_):
+                rns = [ret_names(r) for r in rets_]
+                all_params_ = {x.arg for x in a.posonlyargs + a.args + a.kwonlyargs}
+                arg_names_ = {n.id for _, av_ in binds for n in ast.walk(av_) if isinstance(n, ast.Name)}
+                used_ = _names_used(body)
+                if rns[0] is not None and all(r_ == rns[0] for r_ in rns) and len(rns[0]) == len(tnames) and len(set(rns[0])) == len(rns[0]) and all(rn in locals_h and rn not in all_params_ for rn in rns[0]) and all((tn == rn) or (tn not in used_ and tn not in arg_names_ and tn not in all_params_) for tn, rn in zip(tnames, rns[0])):
+                    ren_ = {rn: tn for tn, rn in zip(tnames, rns[0]) if tn != rn}
+                    for st in body:
+                        for n in ast.walk(st):
+                            if isinstance(n, ast.Name) and n.id in ren_:
+                                n.id = ren_[n.id]
+                    locals_h = (locals_h - set(ren_)) | set(ren_.values())
             if tnames and len(set(tnames)) == len(tnames) and rets_ and all(ret_ok(r) for r in rets_) and any(ret_names(r) == tnames for r in rets_):
                 all_params = {x.arg for x in a.posonlyargs + a.args + a.kwonlyargs}
                 ok_alias = True
@@ -868,8 +909,18 @@ class Inliner:
         if has_break:
             if len(loops) != 1 or not (body and body[-1] is loops[0]):
                 raise _Refuse("break in the caller's body: the yield's loop is not the helper's single last statement")
-        bind = self._at(ast.Assign(targets=[self._store(loop.target)], value=y.value), loop)
         blk, idx, _ = chain[-1]
+        if isinstance(loop.target, ast.Name) and isinstance(y.value, ast.Name) and y.value.id != loop.target.id and not any(isinstance(n, ast.Name) and isinstance(n.ctx, ast.Store) and n.id == loop.target.id for st in cbody for n in ast.walk(st)) and not any(isinstance(n, ast.Name) and n.id == loop.target.id for st in body for n in ast.walk(st)):
+            # `for x in gen(): BODY` with `yield v` (v a local of the generator, x not assigned in BODY): v simply IS x - rename instead of aliasing,
+            # so that rules which follow the value from where it is produced to where it is consumed see one variable
+            old_name, new_name = y.value.id, loop.target.id
+            for st in body:
+                for n in ast.walk(st):
+                    if isinstance(n, ast.Name) and n.id == old_name:
+                        n.id = new_name
+            blk[idx:idx + 1] = cbody
+            return body
+        bind = self._at(ast.Assign(targets=[self._store(loop.target)], value=y.value), loop)
         blk[idx:idx + 1] = [bind] + cbody
         return body
 
